@@ -11,7 +11,7 @@ RULE = ("explicit-state BFS over histories of stream-cipher contexts: letters pr
         "frontier is empty within 4 blocks + 1 consumed per seek; involution is checked with a second context fed the model ciphertext; "
         "DRG: every sequence of {bytes<N>, fill_bytes<N>(prior), fill_slice(l, prior), u32, u64} to the depth bound against a cursor into "
         "the ChaCha<R>(seed, 0) keystream with prior buffer contents {00.., FF.., pattern}; non-trivial = some call with length > 0"
-        " Also: every DRG request size 0..=140 at cursor 0 and 4 for rounds 8/12/20; buffer placement: after a first piece of every length class mod 8, a second piece of every length 1..=24 (+30, 63, 64, 65, 130) whose buffer starts at every address offset mod 8 (+8, 16, 33) from a 64-byte boundary, in place and with separate input / output buffers at equal and at different offsets, and the DRG's fill_slice likewise; the corpus again on the checked-arithmetic, +sse4.1 and native builds."
+        " Also: every DRG request size 0..=140 at cursor 0 and 4 for rounds 8/12/20; buffer placement: after a first piece of every length class mod 8, a second piece of every length 1..=24 (+30, 63, 64, 65, 130) whose buffer starts at every address offset mod 8 (+8, 16, 33) from a 64-byte boundary, in place and with separate input / output buffers at equal and at different offsets, and the DRG's fill_slice likewise; the corpus again on the build without SSE2 (the portable engines selected by the crate itself) and on the checked-arithmetic, +sse4.1 and native builds."
         " Interference: one history per object type with the programs of every other object type (25 bystander programs: hash contexts, one-shots, MACs, legacy digests, stream ciphers, DRG, AEAD, KDFs, Argon2, X25519, Ed25519) woven between its steps, round-robin and whole-program-after-every-step."
         " Many calls: 66000 one-byte / three-byte / empty process calls on one context of every variant.")
 ASSUMPTIONS = ["python keystream models as in C03", "DRG u32/u64 are the next 4/8 keystream bytes read big-endian (documented convention of this commit)",
@@ -28,7 +28,7 @@ def builds_needed(tier):
 
 # Own corpus re-run on other builds of the crate (mc/core.py: extra builds). Every observation is compared with the same model.
 def extra_builds(tier):
-    return [("relchk", None), ("sse41", None), ("native", None), ("fe32", None)]
+    return [("relchk", None), ("sse41", None), ("native", None), ("fe32", None), ("nosse2", None)]
 
 
 
